@@ -277,6 +277,22 @@ CLAIMS['C14'] = dict(
     'constructor into maps/weights + exact measure identities',
     engine='E5-quadalg')
 
+CLAIMS['C18'] = dict(
+    category='other',
+    text='Unit speed/period of circle, affine unit-speed line(), literal '
+    'closed axis-parallel polygons (CAS on the lifted maps); piece offsets '
+    'and accumulated break points; piece selection in eval; default grid, '
+    'glue iff closed, half-open root piece assignment, inheritance to '
+    'children and virtual children, single ownership of gamma_space; the '
+    'closed-curve guard depends only on the per-slab count, fires exactly '
+    'below three and bisects twice.  Arbitrary user polygons are run-time '
+    'checked by the constructor and not decided.',
+    design_ref='DESIGN.md section 3 E2 (K9), E6 (R-slabcount), section 4 '
+    'C18',
+    note='Trusted: ast, sympy.  Assumes user grids contain the break '
+    'points.', technique='CAS on lifted curve maps + shape rules + constant '
+    'folding of the guard over the slab size', engine='E6-mesh')
+
 PENDING = 'rule set not yet implemented in this build (see DESIGN.md Appendix F for the order)'
 NA = {
     'C13':
